@@ -510,6 +510,52 @@ func extraC06(c *Ctx, r *Report) {
 			})
 		}
 	}
+	// … or counted: `n := 0; for n < len(routable) && routable[n].Priority == first { n++ }; tier := routable[:n]` — the
+	// bound of the prefix is only ever incremented under the equality with the first element's priority
+	if !tierOK {
+		eachInstr(fn, func(in ssa.Instruction) {
+			sl, ok := in.(*ssa.Slice)
+			if !ok || sl.Low != nil || sl.High == nil {
+				return
+			}
+			ph, ok := sl.High.(*ssa.Phi)
+			if !ok {
+				return
+			}
+			incs, okAll := 0, true
+			for _, e := range ph.Edges {
+				if k, isK := constInt(e); isK && k == 0 {
+					continue
+				}
+				bo, isB := e.(*ssa.BinOp)
+				if !isB || bo.Op != token.ADD || bo.X != ssa.Value(ph) {
+					okAll = false
+					continue
+				}
+				if k, isK := constInt(bo.Y); !isK || k != 1 {
+					okAll = false
+					continue
+				}
+				incs++
+				guarded := false
+				for _, cf := range normFacts(condFacts(bo.Block())) {
+					cb, isC := cf.Cond.(*ssa.BinOp)
+					if !isC || !assertsEq(cb, cf.True) {
+						continue
+					}
+					if mentionsField(cb.X, pkgDomain, "Endpoint", "Priority", 3) && mentionsField(cb.Y, pkgDomain, "Endpoint", "Priority", 3) && (firstElemPriority(cb.X) || firstElemPriority(cb.Y)) {
+						guarded = true
+					}
+				}
+				if !guarded {
+					okAll = false
+				}
+			}
+			if okAll && incs > 0 {
+				tierOK = true
+			}
+		})
+	}
 	key2 := fname(fn) + ":tier-membership"
 	if tierOK {
 		r.OK("C06-R4", key2, fn.Pos(), "tier = elements whose Priority equals the first (highest) element's")
